@@ -5,6 +5,7 @@
 import Lean.Data.Json
 import Spil.Model.Find
 import Spil.Model.Path
+import Spil.Model.FS
 import Spil.Spec.Sid
 
 open Lean
@@ -96,6 +97,23 @@ def conf (j : Json) : P Conf := do
     defaultPath := ← fieldStr j "default_path"
     dataSuffix := ← fieldStr j "data_suffix" }
 
+def optNat (j : Json) : P (Option Nat) := if j.isNull then pure none else do return some (← j.getNat?)
+
+def finderDef (j : Json) : P FinderDef := do
+  let kind ← (← field j "kind").getStr?
+  if kind == "paths" then
+    return .paths (← optStr (j.getObjValD "config"))
+  else
+    return .constants (← fieldStr j "key") (← listOf str (← field j "values")) (← optNat (j.getObjValD "parent"))
+
+def dataConf (j : Json) : P DataConf := do
+  return {
+    finders := ← listOf finderDef (← field j "finders")
+    finderByType := ← listOf (pairOf str (·.getNat?)) (← field j "finder_by_type")
+    finderDefault := ← optNat (j.getObjValD "finder_default")
+    noGetterTypes := ← listOf str (← field j "no_getter_types")
+    hasDefaultGetter := ← (← field j "has_default_getter").getBool? }
+
 /-- digit table as inclusive code point ranges -/
 def envOf (j : Json) : P Env := do
   let ranges ← listOf (pairOf (·.getNat?) (·.getNat?)) (← field j "digit_ranges")
@@ -123,6 +141,13 @@ def jnat (n : Nat) : Json := Json.num n
 
 structure State where
   ctx : Ctx
+  data : DataConf
+  worlds : List (String × World) := []
+
+def State.dctx (st : State) : DCtx := ⟨st.ctx, st.data⟩
+def State.world (st : State) (id : String) : World := (st.worlds.lookup id).getD World.empty
+def State.setWorld (st : State) (id : String) (w : World) : State :=
+  { st with worlds := (id, w) :: st.worlds.filter (·.1 != id) }
 
 def resolverOf (st : State) (name : Str) : P Resolver :=
   if name == "sid".toList then pure st.ctx.sidR else
@@ -282,18 +307,102 @@ def step (st : State) (j : Json) : P Json := do
       (← listOf (pairOf str dict) (← field j "key_patterns"))))
   | _ => throw s!"unknown op {op}"
 
+def sortStrs (l : List Str) : List Str := Lst.sortBy Str.lt l
+
+def jrec (r : List (Str × Option Str)) : Json :=
+  Json.arr (r.map (fun (k, v) => Json.arr #[jstr k, jopt jstr v])).toArray
+
+def encOf (s : String) : DCtx.Enc := if s == "uri" then .uri else if s == "none" then .none else .str
+
+/-- canonical dump of a world: sorted nodes with kinds, sorted sidecars -/
+def dumpWorld (w : World) : Json :=
+  let nodes := (sortStrs (w.nodes.map (·.1))).map (fun p =>
+    Json.arr #[jstr p, Json.str (match w.kind? p with | some .dir => "dir" | _ => "file")])
+  let sides := (sortStrs (w.sidecars.map (·.1))).map (fun p =>
+    Json.arr #[jstr p, match w.sidecars.lookup p with
+      | some (.data d) => jdict (Lst.sortBy (fun a b => Str.lt a.1 b.1) d)
+      | _ => Json.str "corrupt"])
+  Json.mkObj [("nodes", Json.arr nodes.toArray), ("sidecars", Json.arr sides.toArray)]
+
+/-- operations on a world (stateful) -/
+def worldStep (st : State) (j : Json) : P (State × Json) := do
+  let d := st.dctx
+  let id ← (← field j "w").getStr?
+  let w := st.world id
+  let what ← (← field j "do").getStr?
+  let config ← optStr (j.getObjValD "config")
+  let sidOf (k : String) : P (Except Err Sid) := do return d.ctx.sidOfString (← fieldStr j k)
+  match what with
+  | "new" => return (st.setWorld id World.empty, Json.mkObj [("ok", true)])
+  | "dump" => return (st, Json.mkObj [("ok", dumpWorld w)])
+  | "create" | "update" =>
+    let attrs ← (match fieldOpt j "data" with | some a => do pure (some (← dict a)) | none => pure none : P (Option Dict))
+    let sidStr ← fieldStr j "sid"
+    let r := if what == "create" then d.create w config sidStr attrs
+             else d.update w config sidStr (attrs.getD [])
+    match r with
+    | .ok (w', b) => return (st.setWorld id w', Json.mkObj [("ok", b)])
+    | .error e => return (st, result (fun (_ : Unit) => Json.null) (.error e))
+  | "plant" =>
+    -- junk placed directly in the tree: a file, a directory, or a sidecar state
+    let p ← fieldStr j "path"
+    let kind ← (← field j "kind").getStr?
+    match kind with
+    | "file" =>
+      match w.touchP p with
+      | .ok w' => return (st.setWorld id w', Json.mkObj [("ok", true)])
+      | .error e => return (st, result (fun (_ : Unit) => Json.null) (.error e))
+    | "dir" =>
+      match w.mkdirP p with
+      | .ok w' => return (st.setWorld id w', Json.mkObj [("ok", true)])
+      | .error e => return (st, result (fun (_ : Unit) => Json.null) (.error e))
+    | "corrupt" =>
+      let w' := { w with sidecars := (p, Sidecar.corrupt) :: w.sidecars.filter (·.1 != p) }
+      return (st.setWorld id w', Json.mkObj [("ok", true)])
+    | _ => throw "bad plant kind"
+  | "get_data" =>
+    let x ← sidOf "sid"
+    let attrs ← (match fieldOpt j "attributes" with | some a => listOf str a | none => pure [] : P (List Str))
+    let enc := encOf ((j.getObjValD "enc").getStr?.toOption.getD "str")
+    return (st, bindE x (fun x => (d.getData w config x attrs enc).map jrec))
+  | "getter_paths" =>
+    let attrs ← (match fieldOpt j "attributes" with | some a => listOf str a | none => pure [] : P (List Str))
+    let enc := encOf ((j.getObjValD "enc").getStr?.toOption.getD "str")
+    return (st, result (fun l => jlist jrec l) (d.getFromPaths w config (← fieldStr j "s") attrs enc))
+  | "find_paths" =>
+    return (st, result (fun l => jlist jstr (sortStrs l)) (d.findInPaths w config (← fieldStr j "s")))
+  | "find_all" =>
+    return (st, result (fun l => jlist jstr (sortStrs l)) (d.findInAll w (← fieldStr j "s")))
+  | "sid_exists" => let x ← sidOf "sid"; return (st, bindE x (fun x => (d.sidExists w x).map jbool))
+  | "children" => let x ← sidOf "sid"; return (st, bindE x (fun x => (d.children w x).map (fun l => jlist jstr (sortStrs l))))
+  | "siblings" =>
+    let x ← sidOf "sid"
+    return (st, bindE x (fun x => (d.siblingsAs w x ((Ctx.keytype x).getD [])).map (fun l => jlist jstr (sortStrs l))))
+  | "get_last" =>
+    let x ← sidOf "sid"
+    let k ← optStr (j.getObjValD "key")
+    return (st, bindE x (fun x => (d.getLast w x k).map jsid))
+  | "get_next" => let x ← sidOf "sid"; return (st, bindE x (fun x => (d.getNext w x).map jsid))
+  | "get_new" => let x ← sidOf "sid"; return (st, bindE x (fun x => (d.getNew w x).map jsid))
+  | _ => throw s!"unknown world op {what}"
+
 partial def loop (hin : IO.FS.Stream) (hout : IO.FS.Stream) (st : State) : IO Unit := do
   let line ← hin.getLine
   if line.isEmpty then return ()
-  let out : Json :=
+  let (st', out) : State × Json :=
     match Json.parse line with
-    | .error e => Json.mkObj [("bad", e)]
+    | .error e => (st, Json.mkObj [("bad", e)])
     | .ok j =>
-      match step st j with
-      | .ok r => r
-      | .error e => Json.mkObj [("bad", e)]
+      if (j.getObjValD "op").getStr?.toOption == some "world" then
+        match worldStep st j with
+        | .ok r => r
+        | .error e => (st, Json.mkObj [("bad", e)])
+      else
+        match step st j with
+        | .ok r => (st, r)
+        | .error e => (st, Json.mkObj [("bad", e)])
   hout.putStrLn out.compress
-  loop hin hout st
+  loop hin hout st'
 
 def main : IO Unit := do
   let hin ← IO.getStdin
@@ -302,10 +411,15 @@ def main : IO Unit := do
   match Json.parse line with
   | .error e => throw (IO.userError s!"bad conf line: {e}")
   | .ok j =>
-    match (do let c ← conf (← field j "conf"); let e ← envOf j; pure (c, e) : P (Conf × Env)) with
+    match (do
+        let cj ← field j "conf"
+        let c ← conf cj
+        let e ← envOf j
+        let dc ← dataConf (← field cj "data")
+        pure (c, e, dc) : P (Conf × Env × DataConf)) with
     | .error e => throw (IO.userError s!"bad conf: {e}")
-    | .ok (c, e) =>
+    | .ok (c, e, dc) =>
       hout.putStrLn (Json.mkObj [("ok", true)]).compress
-      loop hin hout { ctx := { cfg := c, env := e } }
+      loop hin hout { ctx := { cfg := c, env := e }, data := dc }
 
 end Driver
